@@ -603,6 +603,26 @@ pub fn prove_program_rng<G: AffineRepr, X: rand_core::RngCore>(
     ProveOut { proof, vs, st, log, ext: ext.log.clone(), probe, build_err }
 }
 
+/// The plain `prove` entry point on a program (no monitoring): used to compare with
+/// `prove_and_return_transcript` under the same external randomness.
+pub fn prove_plain<G: AffineRepr>(prog: &Program, pc: &PedersenGens<G>, bp: &BulletproofGens<G>, rng_seed: u64) -> Result<R1CSProof<G>, R1CSError> {
+    mon::quiet(|| {
+        let st = Rc::new(RefCell::new(St::<G::ScalarField>::new(&[])));
+        let mut ext = ChaChaRng::seed_from_u64(rng_seed);
+        let mut tr = base_transcript(prog);
+        let mut p = Prover::new(pc, &mut tr);
+        let mut commit = |p: &mut Prover<G, &mut Transcript>, s: &mut St<G::ScalarField>, v: &crate::sc::Sc, b: &crate::sc::Sc| {
+            let vh = s.model.sc(v);
+            let vb = s.model.sc(b);
+            s.model.commit(vh, vh, vb);
+            s.n_commit += 1;
+            p.commit(vh, vb).1
+        };
+        drive(&mut p, prog, &st, &mut commit)?;
+        p.prove(&mut ext, bp)
+    })
+}
+
 /// Drive only the construction calls (no proving / verifying; closures are registered but never
 /// run): the call-by-call traces of a prover and a verifier for the same program.
 pub fn trace_only<G: AffineRepr>(prog: &Program, pc: &PedersenGens<G>) -> (St<G::ScalarField>, St<G::ScalarField>, Option<R1CSError>, Option<R1CSError>) {
@@ -664,6 +684,34 @@ pub fn new_transcript(prog: &Program) -> Transcript {
     base_transcript(prog)
 }
 
+thread_local! {
+    static ENTRY_CALLS: std::cell::Cell<u64> = const { std::cell::Cell::new(0) };
+}
+
+/// Every 4th verification is repeated through the plain `verify` entry point (fresh verifier, quiet
+/// monitor); a verdict different from `verify_and_return_transcript`'s is recorded globally.
+fn cross_check_verify_entry<G: AffineRepr>(prog: &Program, vs: &[G], proof: &R1CSProof<G>, pc: &PedersenGens<G>, bp: &BulletproofGens<G>, got: &Result<(), R1CSError>) {
+    let n = ENTRY_CALLS.with(|c| {
+        c.set(c.get() + 1);
+        c.get()
+    });
+    if n % 4 != 0 {
+        return;
+    }
+    let plain = mon::quiet(|| {
+        let mut tr = base_transcript(prog);
+        let (v, _st) = build_verifier::<G>(prog, vs, &mut tr);
+        match v {
+            Ok(v) => v.verify(proof, pc, bp),
+            Err(e) => Err(e),
+        }
+    });
+    crate::fw::note_entry_comparison();
+    if plain.is_ok() != got.is_ok() {
+        crate::fw::note_entry_mismatch(format!("Verifier::verify says {:?} but verify_and_return_transcript says {:?} for the same statement and proof", plain.map_err(|e| format!("{:?}", e)), got.clone().map_err(|e| format!("{:?}", e))));
+    }
+}
+
 /// Run the real verifier on (program, commitments, proof) (monitored).
 pub fn verify_program<G: AffineRepr>(
     prog: &Program,
@@ -692,6 +740,7 @@ pub fn verify_program<G: AffineRepr>(
         }
         res
     });
+    cross_check_verify_entry::<G>(prog, vs, proof, pc, bp, &res);
     let mut st = Rc::try_unwrap(st_out.unwrap()).ok().expect("state still shared").into_inner();
     st.model.phase_switch();
     VerifyOut { res, st, log, probe }
